@@ -3,9 +3,16 @@
 
   Model and tie as for C03 (`Nq.Daemon`, `harness/qsend.c`, `drv_c03`).  The slot table of the
   monitor is the set of delivery commands handed to a spawner and not yet answered.
+
+  The last section is about the layer `Nq.DaemonOwed` (`accept2`, the monitor the driver actually
+  runs): the list of records whose final report (`K`, or `D` with its bounce paragraph) was handled
+  and whose mark has not been seen.  A delivery command for such a record is refused — in the same
+  run and after a clean stop and restart; only a crash, a failing system call of `markdone`, or the
+  removal of the file take a record off the list without its mark.
 -/
 import Nq.Lemmas.DaemonSlots
 import Nq.Lemmas.DaemonInv
+import Nq.Lemmas.DaemonOwed
 
 namespace Nq.Props.C04
 open Nq Nq.Daemon Nq.Lemmas.DS
@@ -171,6 +178,152 @@ theorem C04_restart_keeps (cfg : Cfg) (s s' : St) (h : accept cfg s .restart = s
   simp only [accept] at h
   cases h; exact ⟨rfl, rfl⟩
 
+
+/-! ### Reported recipients, also across clean restarts (layer `Nq.DaemonOwed`) -/
+
+open Nq.Lemmas.DO
+
+/-- **A reported recipient is never started again — in the same run or after a clean restart**:
+while a record is on the list of due marks no delivery command for it is accepted. -/
+theorem C04_reported_refused (cfg : Cfg) (s : St2) (c : Ch) (d m pos idx : Nat) (r : Bytes)
+    (hi : recAt s.base m c pos = some idx) (ho : (m, c, idx) ∈ s.owed) :
+    accept2 cfg s (.ev (.cmd c d m pos r)) = none := by
+  simp [accept2, blocked, hi, ho]
+
+/-- every record that a read from a spawner adds to `delivered` (a `K` report) is put on the list -/
+theorem C04_K_owed (cfg : Cfg) (s s' : St2) (c : Ch) (bs : Bytes) (h : accept2 cfg s (.ev (.rbytes c bs)) = some s') :
+    ∀ m c' i, (c', i) ∈ (s'.base.msg m).delivered → (c', i) ∈ (s.base.msg m).delivered ∨ (m, c', i) ∈ s'.owed := by
+  simp only [accept2] at h
+  split at h
+  · cases h
+  · split at h
+    · rename_i b hb
+      cases h
+      simp only [accept] at hb
+      split at hb
+      · cases hb
+      · cases hb
+        intro m c' i hd
+        rcases (feedReports_delivered cfg c bs { s.base with mayMark := [], notes := [] }).2 m c' i hd with h1 | h1
+        · exact Or.inl h1
+        · exact Or.inr (List.mem_append_left _ h1)
+    · cases h
+
+/-- the record of a `D` report (or of a `Z` past the queue lifetime) is put on the list when its bounce
+paragraph is appended -/
+theorem C04_D_owed (cfg : Cfg) (s s' : St2) (m : Nat) (bs : Bytes) (h : accept2 cfg s (.ev (.appendBounce m bs)) = some s') :
+    ∀ c' i, (c', i) ∈ (s'.base.msg m).noted → (c', i) ∈ (s.base.msg m).noted ∨ (m, c', i) ∈ s'.owed := by
+  simp only [accept2] at h
+  split at h
+  · cases h
+  · split at h
+    · rename_i b hb
+      cases h
+      simp only [accept] at hb
+      split at hb
+      · cases hb
+      · split at hb
+        · cases hb
+        · rename_i n hn
+          split at hb
+          · cases hb
+            intro c' i hd
+            have hd' : (c', i) ∈ (St.msg (St.upd s.base m (fun ms => { ms with bounce := some ((ms.bounce.getD []) ++ bs), fin := (n.c, n.idx) :: ms.fin, noted := (n.c, n.idx) :: ms.noted, inFile := (n.c, n.idx) :: ms.inFile, lastInject := false })) m).noted := hd
+            rw [St.msg_upd] at hd'
+            simp only [if_true] at hd'
+            rcases List.mem_cons.1 hd' with he | hin
+            · right
+              cases he
+              simp [owedStep, hn]
+            · exact Or.inl hin
+          · cases hb
+    · cases h
+
+/-- **A record leaves the list only with its mark, or for one of the documented reasons**: the mark
+was written (`markD` at its position — from then on `C04_marked_refused` applies), a system call of
+`markdone` failed (`markFail`: "message will be delivered twice"), a crash (`restart`), or its file
+is gone (`unlinkChan`; `cUnlinkTodo`/`newmsg`: the message number starts a new life).  In
+particular a clean restart keeps it. -/
+theorem C04_owed_persists (cfg : Cfg) (s s' : St2) (e : Ev2) (h : accept2 cfg s e = some s')
+    (x : Nat × Ch × Nat) (hx : x ∈ s.owed) :
+    x ∈ s'.owed ∨
+    (∃ pos, e = .ev (.markD x.1 x.2.1 pos) ∧ recAt s.base x.1 x.2.1 pos = some x.2.2) ∨
+    e = .markFail x.1 x.2.1 ∨
+    e = .ev .restart ∨
+    e = .ev (.unlinkChan x.1 x.2.1) ∨
+    e = .ev (.cUnlinkTodo x.1) ∨
+    (∃ sender rcpts, e = .ev (.newmsg x.1 sender rcpts)) := by
+  cases e with
+  | cleanRestart =>
+    simp only [accept2] at h
+    split at h
+    · cases h; exact Or.inl hx
+    · cases h
+  | markFail m c =>
+    simp only [accept2] at h
+    cases h
+    by_cases hm : x.1 = m ∧ x.2.1 = c
+    · right; right; left; rw [hm.1, hm.2]
+    · left; exact mem_dropChan hx hm
+  | ev e0 =>
+    simp only [accept2] at h
+    split at h
+    · cases h
+    · split at h
+      · rename_i b hb
+        cases h
+        cases e0 with
+        | rbytes c bs => left; exact List.mem_append_right _ hx
+        | appendBounce m bs =>
+          left
+          simp only [owedStep]
+          split
+          · exact List.mem_cons_of_mem _ hx
+          · exact hx
+        | markD m c pos =>
+          simp only [owedStep]
+          split
+          · rename_i idx hidx
+            by_cases hxe : x = (m, c, idx)
+            · right; left
+              refine ⟨pos, ?_, ?_⟩
+              · rw [hxe]
+              · rw [hxe]; exact hidx
+            · left; exact mem_dropRec hx hxe
+          · left; exact hx
+        | unlinkChan m c =>
+          by_cases hm : x.1 = m ∧ x.2.1 = c
+          · right; right; right; right; left; rw [hm.1, hm.2]
+          · left; exact mem_dropChan hx hm
+        | newmsg m sender rcpts =>
+          by_cases hm : x.1 = m
+          · right; right; right; right; right; right; exact ⟨sender, rcpts, by rw [hm]⟩
+          · left; exact mem_dropMsg hx hm
+        | cUnlinkTodo m =>
+          by_cases hm : x.1 = m
+          · right; right; right; right; right; left; rw [hm]
+          · left; exact mem_dropMsg hx hm
+        | restart => right; right; right; left; rfl
+        | _ => left; exact hx
+      · cases h
+
+/-- a clean restart forgets the slots but neither a file nor a due mark -/
+theorem C04_cleanRestart_keeps (cfg : Cfg) (s s' : St2) (h : accept2 cfg s .cleanRestart = some s') :
+    s'.owed = s.owed ∧ s'.base.tab = s.base.tab ∧ s'.base.slots = [] := by
+  simp only [accept2, accept] at h
+  cases h; exact ⟨rfl, rfl, rfl⟩
+
+/-- the layer only refuses: whatever `accept2` accepts, the base monitor accepts (so every theorem
+about `accept` — C03 and the ones above — applies to the histories the driver validates) -/
+theorem C04_layer_refines (cfg : Cfg) (s s' : St2) (e : Ev) (h : accept2 cfg s (.ev e) = some s') :
+    accept cfg s.base e = some s'.base := by
+  simp only [accept2] at h
+  split at h
+  · cases h
+  · split at h
+    · rename_i b hb; cases h; exact hb
+    · cases h
+
 /-! ### Non-vacuity -/
 
 def cfg0 : Cfg := { conc := fun _ => 1, lifetime := 1000, route := fun a => (.loc, a), doublebounceto := [112] }
@@ -191,6 +344,22 @@ example : (acceptAll cfg0 {}
     [.newmsg 7 [115] [[97], [98]], .creatInfo 7, .writeInfo 7 [70, 115, 0], .creatChan 7 .loc, .writeChan 7 .loc [84, 97, 0, 84, 98, 0],
      .fsyncInfo 7, .fsyncChan 7 .loc, .cleanReq [116, 111, 100, 111, 47, 55, 0], .cUnlinkIntd 7, .cUnlinkTodo 7, .cleanResp 43,
      .cmd .loc 0 7 0 [97], .rbytes .loc [0, 75, 0], .markD 7 .loc 0, .restart, .cmd .loc 0 7 0 [97]] = none := by
+  decide
+
+
+/-- K report for record 0, TERM, exit 0, start again (no mark was written): the command for record 0
+is refused by the layer although the base monitor — which only looks at the bytes on disk — accepts it;
+the command for record 1 is accepted; after a crash instead of the clean stop the retry is accepted -/
+example :
+    let pre : List Ev2 :=
+      [.ev (.newmsg 7 [115] [[97], [98]]), .ev (.creatInfo 7), .ev (.writeInfo 7 [70, 115, 0]), .ev (.creatChan 7 .loc),
+       .ev (.writeChan 7 .loc [84, 97, 0, 84, 98, 0]), .ev (.fsyncInfo 7), .ev (.fsyncChan 7 .loc),
+       .ev (.cleanReq [116, 111, 100, 111, 47, 55, 0]), .ev (.cUnlinkIntd 7), .ev (.cUnlinkTodo 7), .ev (.cleanResp 43),
+       .ev (.cmd .loc 0 7 0 [97]), .ev (.rbytes .loc [0, 75, 0])]
+    acceptAll2 cfg0 {} (pre ++ [.cleanRestart, .ev (.cmd .loc 0 7 0 [97])]) = none ∧
+    (acceptAll2 cfg0 {} (pre ++ [.cleanRestart, .ev (.cmd .loc 0 7 3 [98])])).isSome = true ∧
+    (acceptAll2 cfg0 {} (pre ++ [.ev .restart, .ev (.cmd .loc 0 7 0 [97])])).isSome = true ∧
+    (acceptAll2 cfg0 {} (pre ++ [.markFail 7 .loc, .cleanRestart, .ev (.cmd .loc 0 7 0 [97])])).isSome = true := by
   decide
 
 end Nq.Props.C04
